@@ -23,7 +23,9 @@ INITIAL_TREE = [('d', 'dir1'), ('d', 'dir2'), ('d', 'dir2/sub'), ('d', 'emptydir
                 # as many zero bytes as asked for
                 ('l', 'devfull', '/dev/full'), ('l', 'devzero', '/dev/zero')]
 FILE_NAMES = ['a', 'b.txt', 'empty', 'dir1/x', 'dir2/sub/y', 'new1', 'new2', 'dir1/new3', 'dir2/new4', 'lnk', 'dangling',
-              'missing/z', 'dir1', 'emptydir', 'dlnk/x', 'a/b', 'dir1/../a', './b.txt', 'dir2//sub/y', 'dlnk', 'devnull', 'devfull', 'devzero']
+              'missing/z', 'dir1', 'emptydir', 'dlnk/x', 'a/b', 'dir1/../a', './b.txt', 'dir2//sub/y', 'dlnk', 'devnull', 'devfull', 'devzero',
+              # a trailing separator asks for a directory: on a regular file (existing or to be created) the host refuses
+              'a/', 'b.txt/', 'new1/', 'dir1/', 'dir1/x/', 'lnk/', 'dlnk/', 'new5//']
 
 
 def make_tree(root, spec=INITIAL_TREE):
